@@ -83,6 +83,8 @@ var progSpecs = []progSpec{
 	{"container/support", "defaultDefinitionRegistry", "GetMetas", "dreg_GetMetas"},
 	{"container/support", "defaultDefinitionRegistry", "GetMetaByName", "dreg_GetMetaByName"},
 	{"container/support", "defaultDefinitionRegistry", "GetMetaOrRegister", "dreg_GetMetaOrRegister"},
+	{".", "", "Run", "ioc_Run"},
+	{".", "", "Register", "ioc_Register"},
 }
 
 // conversions whose single argument is passed through unchanged
@@ -498,6 +500,12 @@ func (t *tr) stmt(s ast.Stmt) []string {
 			}
 			if len(x.Rhs) == 1 && len(x.Lhs) == 1 && x.Tok == token.DEFINE && isLogging(x.Rhs[0]) {
 				return nil // `logger := syslog.Pref(…)`: every use of it is a dropped logging call
+			}
+			if len(x.Rhs) == 1 && len(x.Lhs) == 1 && x.Tok == token.ASSIGN {
+				if id, ok := x.Lhs[0].(*ast.Ident); ok && id.Name != "_" && (id.Obj == nil || isPackageLevel(id)) {
+					// a package-level variable: the store is a primitive (".setglob:<name>"), the read is `.glob`
+					return []string{fmt.Sprintf(".expr (.call %s [%s])", lq(".setglob:"+id.Name), t.expr(x.Rhs[0]))}
+				}
 			}
 			if len(x.Rhs) == 1 {
 				if lhs, ok := identNames(x.Lhs); ok {
